@@ -2,7 +2,7 @@
    input_types.py InputTypesGenerator (_parse_input_definition, class order, model_rebuild calls,
    enum imports).  Executable definitions only. *)
 From Coq Require Import List String Ascii ZArith Bool.
-From AC Require Import Base.Sexp Base.Strs Gql.InSchema Model.Names Model.Defaults.
+From AC Require Import Base.Sexp Base.Json Base.Strs Gql.InSchema Model.Names Model.Defaults.
 Import ListNotations.
 Local Open Scope string_scope.
 
@@ -34,13 +34,13 @@ Definition leaf (s : schema) (cs : customs) (n : string) : ann * string :=
   | KUnknown => (AInvalid, "")
   end.
 
-(* parse_input_field_type(type_, nullable, custom_scalars): the flag goes UNCHANGED through a list
-   and is reset only by a non-null wrapper *)
+(* parse_input_field_type(type_, nullable, custom_scalars): list items start nullable again (fix 1ef155d);
+   only a non-null wrapper clears the flag *)
 Fixpoint parse_input_field_type (s : schema) (cs : customs) (t : gtype) (nullable : bool) : ann * string :=
   match t with
   | TNamed n => let '(a, tn) := leaf s cs n in (opt_if nullable a, tn)
   | TList t' =>
-      let '(slice_, tn) := parse_input_field_type s cs t' nullable in
+      let '(slice_, tn) := parse_input_field_type s cs t' true in
       (opt_if nullable (AList slice_), tn)
   | TNonNull t' => parse_input_field_type s cs t' false
   end.
@@ -51,14 +51,6 @@ Fixpoint image (s : schema) (cs : customs) (t : gtype) (nullable : bool) : ann :
   | TNamed n => opt_if nullable (fst (leaf s cs n))
   | TList t' => opt_if nullable (AList (image s cs t' true))
   | TNonNull t' => image s cs t' false
-  end.
-
-(* finding class F21: a list whose own flag is "non-null" with an item type that is not non-null *)
-Fixpoint g21 (t : gtype) (nullable : bool) : bool :=
-  match t with
-  | TNamed _ => true
-  | TList t' => (nullable || is_nonnull t') && g21 t' nullable
-  | TNonNull t' => g21 t' false
   end.
 
 Definition is_opt (a : ann) : bool := match a with AOpt _ => true | _ => false end.
@@ -121,6 +113,37 @@ Fixpoint names_ok_fields (snake : bool) (fs : list ifdef) : bool :=
                         && negb (i_name f =? i_name g)) r
       && names_ok_fields snake r
   end.
+
+(* ---- construction by Python field name: the same value keyed by the generated field names ---- *)
+Fixpoint find_field (k : string) (fs : list ifdef) : option ifdef :=
+  match fs with
+  | [] => None
+  | f :: r => if String.eqb k (i_name f) then Some f else find_field k r
+  end.
+
+Definition rename_entry (ren : gtype -> json -> json) (snake : bool) (fs : list ifdef) (p : string * json)
+  : string * json :=
+  match find_field (fst p) fs with
+  | Some g => (py_name snake (i_name g), ren (i_type g) (snd p))
+  | None => p
+  end.
+
+(* the value a user writes when passing keyword arguments / dicts keyed by Python names *)
+Fixpoint rename (n : nat) (s : schema) (snake : bool) : gtype -> json -> json :=
+  fix go (t : gtype) (j : json) {struct t} : json :=
+    match t with
+    | TNonNull t' => go t' j
+    | TList t' =>
+        match j, n with
+        | JArr l, S n' => JArr (map (rename n' s snake t') l)
+        | _, _ => j
+        end
+    | TNamed nm =>
+        match kind_of s nm, j, n with
+        | KInput fs, JObj kv, S n' => JObj (map (rename_entry (rename n' s snake) snake fs) kv)
+        | _, _, _ => j
+        end
+    end.
 
 (* ---- S-expression output ---- *)
 Fixpoint ann_to_sexp (a : ann) : sexp :=
